@@ -389,7 +389,7 @@ def build_qremote(ctx, name='Qremote'):
         ctx.unshown.append('Qremote does not build from the working tree: %s' % bad[0][1][-1200:])
         return None
     out = os.path.join(ctx.scratch, name)
-    r = vlib.sh(['gcc', '-fsanitize=address,undefined', '-o', out] + [o for o, _, _ in res] + ['-lssl', '-lcrypto', '-lowfat'])
+    r = vlib.sh(['gcc', '-fsanitize=address,undefined'] + (['--coverage'] if vlib.COV else []) + ['-o', out] + [o for o, _, _ in res] + ['-lssl', '-lcrypto', '-lowfat'])
     if r.returncode != 0:
         ctx.unshown.append('Qremote does not link: %s' % r.stdout[-1500:])
         return None
